@@ -62,7 +62,7 @@ Definition operand_specials : list ascii :=
    deemed unmatched demarcation pairings -- inside a quote pair the OTHER
    quote character opens a nested pair; written in pairs it needs no
    back-slash *)
-Definition other (q : quote) : quote := match q with SQ => DQ | DQ => SQ end.
+Definition other_quote (q : quote) : quote := match q with SQ => DQ | DQ => SQ end.
 Definition nest_specials (q : quote) : list ascii :=
   ["\"; qchar q; "("; ")"; "["; "]"]%char.
 (* what the writer back-slashes in the term of a search *)
@@ -221,7 +221,7 @@ Definition wf_seg (prev_coll : bool) (x : sseg) : bool :=
              negb (str_in (st_delim st) term)
              && negb (Ascii.eqb (st_delim st) " "%char) && negb (Ascii.eqb (st_delim st) "\"%char)
          | _ => match st_quote st with
-                | Some q => negb (st_nest st) || pairs_close (qchar (other q)) false term
+                | Some q => negb (st_nest st) || pairs_close (qchar (other_quote q)) false term
                 | None => true
                 end
          end
